@@ -334,6 +334,12 @@ pub fn run(ctx: &Ctx) -> CheckOutput {
             if !quick && single {
                 check_tree::<f32>(&spec, depth.min(5), &mut st, &sink);
             }
+            // the coarse scalar (10-bit significand): every obligation here is a bit-exact equality between
+            // instances with the same history, so it holds at any precision - and exact coincidences
+            // between computed quantities, on which a hidden cache or shortcut may be keyed, become reachable
+            if single {
+                check_tree::<crate::lo::Lo>(&spec, depth.min(if quick { 4 } else { 6 }), &mut st, &sink);
+            }
             JobOut { stats: st, viols: sink.take(), samples: vec![json!({"explorer":"TREE (+CLOSURE for single views)","view":spec.name(),"depth":depth})] }
         }));
     }
